@@ -302,6 +302,15 @@ CheckNum(e) ==
                         /\ e.inc = e.x + 1 /\ e.dbl = 2 * e.x /\ e.sq = e.x * e.x /\ e.lsh1 = 2 * e.x
                         /\ (e.one <=> e.x = 1) /\ (e.odd <=> e.x % 2 = 1) /\ (e.prime <=> IsPrime(e.x))
                         /\ e.tl = BitLen(e.x) /\ e.modct = e.x
+    \* a value derived from a NatPlus that was already used as a modulus reduces modulo ITSELF, not modulo the operand it came from
+    [] e.a = "P.seq" ->
+         LET dv == CASE e.op = "inc" -> e.x + 1 [] e.op = "dec" -> e.x - 1 [] e.op = "dbl" -> 2 * e.x [] e.op = "sq" -> e.x * e.x
+                     [] e.op = "lsh1" -> 2 * e.x [] e.op = "rsh1" -> e.x \div 2 [] e.op = "add3" -> e.x + 3 [] e.op = "mul3" -> 3 * e.x
+                     [] OTHER -> e.x
+         IN /\ e.pafter = e.x
+            /\ e.ok <=> dv >= 1
+            /\ e.ok => /\ e.d = dv
+                        /\ \A i \in 1..Len(e.ys) : e.rz[i] = e.ys[i] % dv /\ e.rn[i] = e.ys[i] % dv /\ e.ru[i] = e.ys[i] % dv
     [] e.a = "U.ring" -> (e.domain <=> IsPrime(e.m)) /\ e.zero = 0 /\ e.one = 1 % e.m /\ e.top = e.m - 1 /\ e.mod = e.m
     [] e.a = "U.ring.panic" -> e.m = 1                                    \* Top() of the one-element ring refuses to decrement the modulus
     [] e.a = "U.un" ->
